@@ -93,6 +93,11 @@ def replay(rec, ctx):
     if abs(got - want) > 1e-9 * max(1.0, abs(want)):
         viol.append({"sig": f"admt:anisotropy-{'1' if c['a'] == 1 else 'gt1'}:{'curved' if curved else 'linear'}-flux-map:differs-from-div-D-grad",
                      "detail": f"grid {g}, cell ({c['ix']},{c['iy']}), psi {c['psi']}, f {c['p']}, anisotropy {c['a']}: operator gives {got!r}, exact {rec['num']}/{rec['den']} = {want!r}"})
+    for e in (-8, 8):               # GridOps.tla: FluxScaleExps
+        row_s = calculate_admt(radii, ops, psi * 10.0 ** e, float(g["dx"]), float(g["dy"]), anisotropy=c["a"])[i]
+        if not np.all(np.isfinite(row_s)) or abs(float(row_s @ f) - got) > 1e-8 * max(1.0, abs(got)):
+            viol.append({"sig": f"admt:depends-on-the-magnitude-of-the-flux-map:1e{e}", "detail": f"grid {g}, cell ({c['ix']},{c['iy']}), psi {c['psi']} x 1e{e}: {float(row_s @ f)!r} vs {got!r}"})
+            break
     const = float(row @ np.ones(len(f)))
     if abs(const) > 1e-9 * max(1.0, float(np.abs(row).sum())):
         viol.append({"sig": "admt:does-not-annihilate-constants", "detail": f"row sum {const!r}"})
